@@ -74,7 +74,7 @@ FORMULAS = {
     'F1': '=LEFT(A1,B1)', 'F2': '=RIGHT(A1,B1)', 'F3': '=MID(A1,B1,C1)', 'F4': '=LEFT(A1,B1)&MID(A1,B1+1,C1)',
     'F5': '=A1&A2', 'F6': '=A1&A2&A3', 'F7': '=CONCATENATE(A1,A2,A3)', 'F8': '=A1&B1', 'F9': '=CONCATENATE(B1,A1,C1)',
     'F10': '=SEARCH(A2,A1)', 'F11': '=SEARCH(A2,A1,B1)', 'F12': '=SEARCH("a?b",A1)', 'F13': '=VALUE(A1)',
-    'F14': '=LEFT(A1)', 'F15': '=RIGHT(A1)', 'F16': '=SEARCH("b*a",A1,B1)',
+    'F14': '=LEFT(A1)', 'F15': '=RIGHT(A1)', 'F16': '=SEARCH("b*a",A1,B1)', 'F17': '=LEFT(MID(A1,B1,2),C1)', 'F18': '=RIGHT(LEFT(A1,B1))&MID(RIGHT(A1,B1),C1,1)',
 }
 CONSTS = {'A1': 'abc', 'A2': 'b', 'A3': 'x', 'B1': 1, 'C1': 1}
 K = {}
@@ -134,8 +134,14 @@ def run(report, tier, seed):
     s.add('left_mid_rebuild', 't: str, n: int', f'1 <= len(t) <= {n} and all(c in "{ALPHA}" for c in t) and 0 <= n < len(t)', '''
         return str(RT._left(t, n)) + str(RT._mid(t, n + 1, len(t))) == t
     ''', encodes=enc)
-    s.add('left_right_default_one', 't: str', f'1 <= len(t) <= {n} and all(c in "{ALPHA}" for c in t)', '''
-        return RT._left(t, None) == t[0] and RT._right(t, None) == t[-1]
+    s.add('left_right_default_one', 't: str', f'len(t) <= {n} and all(c in "{ALPHA}" for c in t)', '''
+        return RT._left(t, None) == t[:1] and RT._right(t, None) == t[-1:]
+    ''', encodes=enc)
+    # the empty text delivered as a blank (never-written cell, or the blank result of an inner slice whose window lies outside its text)
+    s.add('slices_of_blank', 'k: int, n: int', f'-2 <= k <= {n + 2} and {box}', '''
+        b = RT.EmptyCell()
+        l, r, m = RT._left(b, n), RT._right(b, n), RT._mid(b, k, n)
+        return (iserr(l) if n < 0 else l == '') and (iserr(r) if n < 0 else r == '') and (iserr(m) if (k < 1 or n < 0) else m == '') and RT._left(b, None) == '' and RT._right(b, None) == ''
     ''', encodes=enc)
     # SEARCH plain path: needle and haystack symbolic
     senc = ('ExcelInPython._search',)
@@ -179,6 +185,10 @@ def run(report, tier, seed):
     s.add('f_amp2', 'a: str, b: str, c: str', t3, "return ev('F5', A1=a, A2=b) == a + b", encodes=cenc, requires="'F5' in K")
     s.add('f_amp3', 'a: str, b: str, c: str', t3, "return ev('F6', A1=a, A2=b, A3=c) == a + b + c", encodes=cenc, requires="'F6' in K")
     s.add('f_concatenate3', 'a: str, b: str, c: str', t3, "return ev('F7', A1=a, A2=b, A3=c) == a + b + c", encodes=cenc, requires="'F7' in K")
+    s.add('f_amp_blank', 'a: str, b: str, c: str', t3, '''
+        e = RT.EmptyCell()
+        return ev('F5', A1=e, A2=b) == b and ev('F5', A1=a, A2=e) == a and ev('F7', A1=a, A2=e, A3=c) == a + c and ev('F6', A1=e, A2=e, A3=c) == c
+    ''', encodes=cenc, requires="'F5' in K and 'F6' in K and 'F7' in K")
     s.add('f_amp_text_int', 'a: str, i: int', "len(a) <= 2 and all(ch in 'abAB.' for ch in a) and -1000 <= i <= 1000",
           "return ev('F8', A1=a, B1=i) == a + str(i)", encodes=cenc, requires="'F8' in K")
     s.add('f_concatenate_int_text_int', 'a: str, i: int, j: int', "len(a) <= 2 and all(ch in 'abAB.' for ch in a) and -1000 <= i <= 1000 and -1000 <= j <= 1000",
@@ -204,9 +214,20 @@ def run(report, tier, seed):
     s.add('f_left_mid_rebuild', 't: str, n: int', f'1 <= len(t) <= {n} and all(c in "{ALPHA}" for c in t) and 0 <= n < len(t)', '''
         return ev('F4', A1=t, B1=n, C1=len(t)) == t
     ''', encodes=fenc, requires="'F4' in K")
-    s.add('f_left_right_one_arg', 't: str', f'1 <= len(t) <= {n} and all(c in "{ALPHA}" for c in t)', '''
-        return ev('F14', A1=t) == t[0] and ev('F15', A1=t) == t[-1]
+    s.add('f_left_right_one_arg', 't: str', f'len(t) <= {n} and all(c in "{ALPHA}" for c in t)', '''
+        return ev('F14', A1=t) == t[:1] and ev('F15', A1=t) == t[-1:]
     ''', encodes=fenc, requires="'F14' in K and 'F15' in K")
+    s.add('f_slices_of_blank_cell', 'k: int, n: int', f'1 <= k <= {n + 2} and 0 <= n <= {n + 2}', '''
+        b = RT.EmptyCell()
+        return ev('F1', A1=b, B1=n) == '' and ev('F2', A1=b, B1=n) == '' and ev('F3', A1=b, B1=k, C1=n) == '' and ev('F14', A1=b) == '' and ev('F15', A1=b) == ''
+    ''', encodes=fenc, requires="all(c in K for c in ('F1', 'F2', 'F3', 'F14', 'F15'))")
+    s.add('f_nested_slices', 't: str, k: int, n: int', f'{tpre} and 1 <= k <= {n + 2} and 0 <= n <= 3', '''
+        return ev('F17', A1=t, B1=k, C1=n) == t[k - 1:k + 1][:n]
+    ''', encodes=fenc, requires="'F17' in K")
+    s.add('f_nested_slices_defaults', 't: str, k: int, n: int', f'{tpre} and 0 <= k <= {n + 1} and 1 <= n <= 3', '''
+        r = t[len(t) - k:] if k <= len(t) else t
+        return ev('F18', A1=t, B1=k, C1=n) == t[:k][-1:] + r[n - 1:n]
+    ''', encodes=fenc, requires="'F18' in K", timeout=T * 3)
     s.add('f_search2', 'f: str, t: str', f"len(f) == 1 and len(t) <= 2 and all(c in 'aAb' for c in f + t)", '''
         got = ev('F10', A1=t, A2=f)
         exp = ref_plain_search(f, t, 1)
@@ -231,7 +252,7 @@ def run(report, tier, seed):
     report.bound(f'texts len<={n} over "{ALPHA}"; counts/positions in -2..len+2; SEARCH plain: needle len<=2, haystack len<={n - 1}; '
                  f'wildcard patterns: {"seeded subset of" if tier == "quick" else "all"} patterns of length<=3 over {{a,b,?,*,~}} with a wildcard, text len<=3 over {{a,A,*}}, start 1..2')
     report.assume('outside the claim: non-ASCII case folding, symbolic wildcard patterns (the runtime compiles the pattern), VALUE\'s '
-                  'date/time/percent ladder, text form of floats/booleans/blank under &',
+                  'date/time/percent ladder, text form of floats/booleans under & (observed: str() gives "True" where Excel writes TRUE; operands outside the quantified strings x integers)',
                   'CrossHair patches: re.findall via finditer, _Match.groups(default)',
                   'bare `except:` of the loaded runtime copy narrowed to `except Exception`')
     report.stub('re.findall -> finditer-based model (validated against real re.findall in this run)')
